@@ -472,6 +472,20 @@ class Model():
         attacker_id     - optional id for the attacker
         """
 
+        if _contains(self.attackers, attacker):
+            raise ValueError(
+                f'Attacker "{attacker.name}" is already part of model '
+                f'"{self.name}".'
+            )
+        for entry_point_asset, _ in attacker.entry_points:
+            # (only asset objects can be checked, not placeholders)
+            if hasattr(entry_point_asset, 'type') and \
+                    not _contains(self.assets, entry_point_asset):
+                raise ValueError(
+                    f'Entry point asset "{entry_point_asset.name}" of the '
+                    f'attacker is not part of model "{self.name}".'
+                )
+
         if attacker_id is not None:
             attacker.id = attacker_id
         else:
